@@ -9,13 +9,13 @@ GENERATED markers of /repo/uhppote/contracts_verif.go (comment-only file, build 
 usage: gen_op_contracts.py > /tmp/ops.txt
 """
 
-def op(name, params, serial, results, code, wire, zero_from, accept_extra="", result="", domain="", invalid=None, requires_extra="", note=""):
+def op(name, params, serial, results, code, wire, zero_from, accept_extra="", result="", domain="", invalid=None, requires_extra="", note="", noaxioms="time."):
     out = []
     out.append(f"//@ func (*uhppote).{name}")
     out.append(f"//@   params u, {', '.join(params)}")
     out.append(f"//@   returns ({', '.join(results)})")
     out.append(f"//@   requires client: u != nil && u.driver != nil{requires_extra}")
-    out.append("//@   attr noaxioms = time.")
+    out.append(f"//@   attr noaxioms = {noaxioms}")
     out.append("//@   attr opaque = bcd.")
     out.append("//@   modifies sent.n, sent.kind, sent.iplen, sent.ipb, sent.port, sent.bytes, recv.n, recv.len, recv.bytes")
     out.append("//@   define N0 = old(sent.n)")
@@ -149,12 +149,17 @@ ops.append(op("GetDevice", ["serialNumber"], "serialNumber", ["res", "err"], "0x
     "res != nil && res.SerialNumber == serialNumber && res.Version == 256 * R[26] + R[27] && " + rip(8, "res.IpAddress") + " && " + rip(12, "res.SubnetMask") + " && " + rip(16, "res.Gateway") + " && "
     "len(res.MacAddress) == 6 && " + " && ".join(f"res.MacAddress[{i}] == R[{20+i}]" for i in range(6)) + " && " + rdate(28, "res.Date")))
 ops.append(op("GetStatus", ["serialNumber"], "serialNumber", ["res", "err"], "0x20", "", 8,
-    "R[13] <= 1 && " + " && ".join(f"R[{28+i}] <= 1" for i in range(8)) + " && wire.rdtOK(R, 20)",
+    "R[13] <= 1 && " + " && ".join(f"R[{28+i}] <= 1" for i in range(8)) + " && wire.rdtOK(R, 20) && "
+    "(wire.rsysdateOK(R, 51) ==> wire.bcdok(R, 51, 3) && time.validDate(wire.rsysY(R, 51), bcd.val2(R[52]), bcd.val2(R[53]))) && "
+    "wire.bcdok(R, 37, 3) && time.validClock(bcd.val2(R[37]), bcd.val2(R[38]), bcd.val2(R[39]))",
     "res != nil && res.SerialNumber == serialNumber && res.SystemError == R[36] && res.SequenceId == wire.u32(R, 40) && res.SpecialInfo == R[48] && res.RelayState == R[49] && res.InputState == R[50] && "
     "(res.DoorState[1] <==> R[28] == 1) && (res.DoorState[2] <==> R[29] == 1) && (res.DoorState[3] <==> R[30] == 1) && (res.DoorState[4] <==> R[31] == 1) && "
     "(res.DoorButton[1] <==> R[32] == 1) && (res.DoorButton[2] <==> R[33] == 1) && (res.DoorButton[3] <==> R[34] == 1) && (res.DoorButton[4] <==> R[35] == 1) && "
     "(wire.u32(R, 8) == 0 ==> res.Event.Index == 0 && res.Event.Type == 0 && res.Event.CardNumber == 0 && res.Event.Timestamp.abs == 0) && "
-    "(wire.u32(R, 8) != 0 ==> res.Event.Index == wire.u32(R, 8) && res.Event.Type == R[12] && (res.Event.Granted <==> R[13] == 1) && res.Event.Door == R[14] && res.Event.Direction == R[15] && res.Event.CardNumber == wire.u32(R, 16) && res.Event.Reason == R[27] && " + rdt(20, "res.Event.Timestamp") + ")"))
+    "(wire.u32(R, 8) != 0 ==> res.Event.Index == wire.u32(R, 8) && res.Event.Type == R[12] && (res.Event.Granted <==> R[13] == 1) && res.Event.Door == R[14] && res.Event.Direction == R[15] && res.Event.CardNumber == wire.u32(R, 16) && res.Event.Reason == R[27] && " + rdt(20, "res.Event.Timestamp") + ") && "
+    # controller system date + time (the recombination for a present date is not decided: the engine cannot bound the
+    # year of the decoded system date during symbolic execution, so the Format/Parse models stay opaque - see DESIGN.md)
+    "(!wire.rsysdateOK(R, 51) ==> res.SystemDateTime.abs == 0 && res.SystemDateTime.ns == 0)"))
 
 print("// ---- GENERATED by /verif/tools/gen_op_contracts.py: begin ----")
 print()
